@@ -524,8 +524,10 @@ pub fn gen_case(seed: u64, k: u64) -> Case {
         },
         end_with_drop: r.chance(1, 4),
         fast_client,
-        prelude: if r.chance(1, 5) {
-            1 + r.below(3) as u8
+        // 1-3: an earlier session on a connection of its own; 4: an earlier LAUNCH on the judged connection itself, of
+        // another version of the program (the editor's "restart debugging" after an edit)
+        prelude: if r.chance(1, 4) {
+            1 + r.below(4) as u8
         } else {
             0
         },
@@ -1589,7 +1591,7 @@ pub fn scenario(case: &Case, slot: &Arc<StdMutex<Option<Verdict>>>) {
     let setup = (|| -> Result<DapClient, ClientErr> {
         lsp.initialize()?;
         lsp.did_open(&path, &case.program)?;
-        if case.prelude != 0 {
+        if case.prelude != 0 && case.prelude != 4 {
             // An earlier session with a breakpoint on EVERY line: whatever survives it (breakpoints, a machine
             // thread, a stale position) would show in the judged session.
             let mut p = DapClient::connect(PORT, 400).ok_or(ClientErr::Closed)?;
@@ -1625,12 +1627,45 @@ pub fn scenario(case: &Case, slot: &Arc<StdMutex<Option<Verdict>>>) {
         } else {
             c.request("initialize", json!({"clientID": "sim", "linesStartAt1": case.lines_start_at_1, "columnsStartAt1": case.lines_start_at_1}))?;
         }
+        if case.prelude == 4 {
+            // "Restart debugging" after an edit: the same connection first debugs an OLDER version of the program (the
+            // test body three instructions longer at its start: every line and every address of what follows differs),
+            // with a breakpoint on every line; then the editor sends the real text and launches again. Whatever the
+            // session keeps from the first machine - source map, symbols, memory - is wrong for the second.
+            let older = case.program.replacen(
+                ".test \"t\" {\n",
+                ".test \"t\" {\n    nop\n    nop\n    lda #$5a\n",
+                1,
+            );
+            lsp.did_change(&path, &older)?;
+            lsp.request("textDocument/documentSymbol", json!({"textDocument": {"uri": format!("file://{}", path)}}))?;
+            c.request("launch", json!({"workspace": WS, "testRunner": {"testCaseName": "t"}}))?;
+            let all: Vec<Value> = (0..older.lines().count()).map(|l| json!({ "line": l })).collect();
+            c.request("setBreakpoints", json!({"source": {"path": path}, "breakpoints": all}))?;
+            c.request("configurationDone", Value::Null)?;
+            let _ = c.wait_event("stopped", Duration::from_millis(300));
+            let _ = c.request("stepIn", json!({"threadId": 1}));
+            let _ = c.wait_event("stopped", Duration::from_millis(300));
+            // the protocol replaces the breakpoints of a source as a whole: the second session starts without any
+            c.request("setBreakpoints", json!({"source": {"path": path}, "breakpoints": []}))?;
+            lsp.did_change(&path, &case.program)?;
+            // (the edit travels on another connection than the launch: the editor has seen the server react to it -
+            // here, answer a request sent after it - before the user restarts the debugger)
+            let uri = format!("file://{}", path);
+            lsp.request("textDocument/documentSymbol", json!({"textDocument": {"uri": uri}}))?;
+        }
         let l = c.request(
             "launch",
             json!({"workspace": WS, "testRunner": {"testCaseName": "t"}}),
         )?;
         if l.get("success").and_then(|s| s.as_bool()) != Some(true) {
             return Err(ClientErr::Io(format!("launch failed: {}", l)));
+        }
+        if case.prelude == 4 {
+            // events of the first machine that were still on their way
+            clock::sleep(Duration::from_millis(120));
+            c.drain();
+            c.pending_events.clear();
         }
         Ok(c)
     })();
